@@ -1,4 +1,5 @@
 import Hannibal.Monitor.C01
+import Hannibal.Monitor.C01P
 import Hannibal.Monitor.C02
 import Hannibal.Monitor.C02C
 import Hannibal.Monitor.C03
@@ -41,7 +42,8 @@ def runMonitor (pid : String) (c : MonCtx) (ls : List Label) : Option (Option Na
   | "C01" => some (firstSome ([ff (monC01 c) ls,
       -- "the state is the fold of the handled messages": an incarnation is only replaced by a requested restart,
       -- and "handled" means run to completion: an invocation is only ever abandoned by a configured timeout
-      ff (monC07 c) ls, ff (monC07o c) ls, ff (monC11 c) ls] ++ wfAll c ls))
+      ff (monC07 c) ls, ff (monC07o c) ls, ff (monC11 c) ls,
+      ff monC01p ls] ++ wfAll c ls))     -- a ping never overtakes an earlier acknowledged send
   | "C02" => some (firstSome ([ff (monC02 c) ls, ff (monC02t c) ls,
       -- "awaits complete with the termination result": Ok only after a graceful end, an error after a failure
       ff (monC04 c) ls, ff (monC06 c) ls,
